@@ -13,6 +13,13 @@ sys.path.insert(0, ROOT)
 sys.path.insert(0, "/repo")
 
 IDS = ["C%02d" % i for i in range(1, 21)]
+# modules that exist but are not yet quiet / reviewed: not claimed until they are
+PENDING = {
+    "C06": "check module under construction (precession): not yet reviewed and quiet on the unchanged tree",
+    "C08": "check module under construction (Sun/Earth frames): not yet reviewed and quiet on the unchanged tree",
+    "C13": "check module under construction (planetary event finders): not yet reviewed and quiet on the unchanged tree",
+    "C20": "check built; waiting for the C06/C13 repairs and known findings it shares before it is quiet on the unchanged tree",
+}
 NOT_BUILT = "check not built yet in this session (designed in DESIGN.md section 5; to be claimed once its module is committed and quiet on the unchanged tree)"
 
 
@@ -24,6 +31,9 @@ def main():
         path = os.path.join(ROOT, "vf", "props", pid.lower() + ".py")
         if not os.path.exists(path):
             na.append({"property_id": pid, "reason": NOT_BUILT})
+            continue
+        if pid in PENDING:
+            na.append({"property_id": pid, "reason": PENDING[pid]})
             continue
         mod = importlib.import_module("vf.props." + pid.lower())
         m = getattr(mod, "MANIFEST", {})
